@@ -91,8 +91,11 @@ class Check:
             jobs = [j for j in jobs if re.search(flt, j['name']) or j['name'].startswith('diff-')]
         for j in jobs:
             j.setdefault('opt', {}).setdefault('max_wall_s', 150 if self.tier == 'quick' else 3600)
+        budget = timeout_s or (1500 if self.tier == 'quick' else 6 * 3600)
         spec = {'dir': dir, 'patterns': patterns, 'overlay': overlay, 'jobs': jobs, 'workers': workers,
                 'query_timeout_ms': timeout_ms, 'record': record,
+                # the engine stops starting paths before the driver's own timeout, so that what was found is reported
+                'deadline_s': max(60, budget - (200 if self.tier == 'quick' else 900)),
                 'out': os.path.join(self.scratch, 'out%d.json' % self.engine_runs)}
         if record:
             spec['transcript_dir'] = os.path.join(self.scratch, 'tr%d' % self.engine_runs)
@@ -100,7 +103,7 @@ class Check:
         json.dump(spec, open(sp, 'w'))
         try:
             p = subprocess.run([GOSYM, sp], env=GOENV, stdout=subprocess.PIPE, stderr=subprocess.STDOUT, text=True,
-                               timeout=timeout_s or (1500 if self.tier == 'quick' else 6 * 3600))
+                               timeout=budget)
         except subprocess.TimeoutExpired:
             self.inconclusive.append('engine run exceeded its wall-clock budget')
             return {'jobs': [], 'load_errors': {}, 'skipped': {}}
